@@ -7,8 +7,8 @@ contain the `expect-last` text of the witness file."""
 import os
 from .core import VERIF
 
-EXTRA = {"KF-C15-SCAN-HANG": ["findings/c15_scan_hang_svx.txt"],
-         "KF-C03-pipe-chunk-loop": ["findings/C03-wav-pipe-backjump.txt"]}
+EXTRA = {"KF-C15-SCAN-HANG": ["findings/c15_scan_hang_svx.txt", "findings/c15_scan_hang_caf_at17.txt", "findings/c15_scan_hang_svx_at10.txt"],
+         "KF-C03-pipe-chunk-loop": ["findings/C03-wav-pipe-backjump.txt", "findings/C03-aiff-pipe-backjump.txt", "findings/C03-rf64-pipe-backjump.txt"]}
 
 
 def run(ctx, op_timeout=3):
